@@ -5,8 +5,8 @@ Workload: assignment targets `root step*` (at most 3 steps, i.e. chains of lengt
           several ways), parameter holding a pointer}
   steps  {.field, [i], explicit deref `^`, parentheses, #unwrap}
   ops    {`=`, the ten compound operators, `^mut path`, `^path`}
-Every case is compiled by the real CLI in its own source file (accepted cases may be batched in the thorough tier, a
-batch that is not accepted as a whole is re-run one case per file).  The oracle is the path-mutability model of the
+Every expected-reject case is compiled by the real CLI in its own source file; expected-accept cases are batched (one
+function per case) and any case of a batch that is not accepted / does not run cleanly is re-run in its own file.  The oracle is the path-mutability model of the
 statement (`Oracle` below, written without looking at get_mutability): root mutable iff `:=` local; crossing a pointer
 (explicit or automatic dereference) makes the path mutable iff the pointer TYPE is `^mut`; every other step preserves.
 Accepted programs are linked and run: the written location is printed through the target path, through an alias
@@ -464,6 +464,7 @@ def render_case(case, n):
             body.append(f"r {bind} idp{n}({m}{po});")
     # ---- the operation under test
     stmts = []
+    extra_param = None
     P_ = w.text
     writes = op[0] != "ref"
     after = copy.deepcopy(mem)
@@ -476,6 +477,8 @@ def render_case(case, n):
             val, mv = "i64.[7002, 7001]", [7002, 7001]
         else:
             val, mv = ("^mut " if fty[1] else "^") + ALT_OBJ[fty[2]], ("ptr", ALT_OBJ[fty[2]])
+        if kind == "param" and is_ptr(fty):
+            extra_param, val = (f"nv: {ty_text(fty)}", val), "nv"      # the new pointee is a local of the caller
         stmts.append(f"{P_} = {val};")
         mem_set(after, w.loc, mv)
     elif op[0] == "cmp":
@@ -508,8 +511,8 @@ def render_case(case, n):
             alias = f"vr_i64({base + 2}, {e});"
             expected[base + 2] = model_leaf(after, w.loc, fty)
     if kind == "param":
-        top.append(f"f{n} :: (r: {ty_text(rty)}) {{\n    " + "\n    ".join(stmts) + "\n}")
-        body.append(f"f{n}({arg});")
+        top.append(f"f{n} :: (r: {ty_text(rty)}{', ' + extra_param[0] if extra_param else ''}) {{\n    " + "\n    ".join(stmts) + "\n}")
+        body.append(f"f{n}({arg}{', ' + extra_param[1] if extra_param else ''});")
     else:
         body += stmts
     if alias:
@@ -678,21 +681,26 @@ def violation_of(v):
     rd = v["rd"]
     st = v["status"]
     chain = chain_text(root, steps)
+    via = root_class(root) + (f" init={root[3]}" if root[3] not in ("value", "arg") else "")
+    opk = "write" if op[0] in ("assign", "cmp") else op[0]
+    fine = f"|root={root_desc(root)}|op={op_text(op)}|chain={chain}"
     if st == "internal_error":
         sig = "internal_error|" + v["sig"]
+        cls = sig
         what = f"internal compiler error on {v['desc']}: {v.get('out', '')[:300]}"
-    elif st == "accepted_immutable":
-        sig = f"accepted_immutable|root={root_desc(root)}|why={rd['why']}|op={op_kind(op)}|chain={chain}"
-        what = f"accepted although the target is immutable: {v['desc']}; written location: {rd['loc']}; {v.get('out', '')}"
-    elif st == "rejected_mutable":
-        sig = f"rejected_mutable|root={root_desc(root)}|why={rd['why']}|op={op_kind(op)}|chain={chain}"
-        what = f"rejected although the target is mutable: {v['desc']}; diagnostics: {v['kinds'][:2]} / {v['helps'][:2]}"
+    elif st in ("accepted_immutable", "rejected_mutable"):
+        cls = f"{st}|why={rd['why']}|via={via}|op={opk}"
+        sig = cls + fine
+        if st == "accepted_immutable":
+            what = f"accepted although the target is immutable: {v['desc']}; written location: {rd['loc']}; {v.get('out', '')}"
+        else:
+            what = f"rejected although the target is mutable: {v['desc']}; diagnostics: {v['kinds'][:2]} / {v['helps'][:2]}"
     else:
         operand = rd["stmt"].split(" = ")[0] if op[0] in ("assign", "cmp") else rd["stmt"].split(":= ", 1)[1]
         feats = "+".join((["paren"] if "(" in operand.replace("#unwrap(", "") else []) + (["unwrap"] if "#unwrap(" in operand else [])) or "plain"
-        sig = f"effect_not_visible|{v['how']}|op={op_kind(op)}|type={rd['fty']}|steps={feats}|root={root_desc(root)}|chain={chain}"
+        cls = f"effect_not_visible|{v['how']}|op={opk}|type={rd['fty']}|steps={feats}"
+        sig = cls + fine
         what = f"accepted {v['desc']} but the effect is not what every alias shows: {v.get('out', '')[:500]}"
-    cls = sig.split("|chain=")[0]
     return cls, {"key": "internal_error" if st == "internal_error" else st, "sig": sig, "what": what,
                  "witness": {"files": {"main.capy": v["text"]}, "case": case_to_json(case), "compiler_output": v.get("out", "")[:1500]}}
 
@@ -712,11 +720,11 @@ def run(tier, seed):
     work = C.fresh_dir("C14")
     if tier == "quick":
         cases, ncore, nspace = select_quick(seed)
-        batch = 1
+        batch = 6
     else:
         cases, ncore, nspace = select_thorough(seed)
         batch = 10
-    # expected-reject cases: one per file; expected-accept cases: batched in the thorough tier
+    # expected-reject cases: one per file; expected-accept cases: batched, with single-file fallback
     jobs, pending = [], []
     for cs in cases:
         root, steps, op = cs
